@@ -213,6 +213,23 @@ def eval_conn(case, ctx):
     eps, dv_tol, bal_tol = case["eps"], case["dv_tol"], case["bal_tol"]
     req = Req(points_u=pu.copy(), points_s=ps.copy(), states_u=Xu.copy(), states_s=Xs.copy(),
               traj_indices_u=ti_u, traj_indices_s=ti_s, eps=eps, dv_tol=dv_tol, bal_tol=bal_tol)
+    # the radius-pair bookkeeping is observable on its own: _pair_counts documents "distance^2 <= r2" and sizes the
+    # buffer that _radpair2d fills; a disagreement between the two passes overruns that buffer, so it is checked
+    # BEFORE the backend is run (exact ties must be counted, pairs within 4 ulp of the radius may go either way)
+    if len(pu) and len(ps):
+        r2 = float(eps) * float(eps)
+        cnt = np.asarray(B._pair_counts(np.ascontiguousarray(pu), np.ascontiguousarray(ps), r2))
+        D2f = ((pu[:, None, :] - ps[None, :, :]) ** 2).sum(axis=2)
+        lo = (D2f < r2 * (1 - 1e-15 * 4)).sum(axis=1)
+        hi = (D2f <= r2 * (1 + 1e-15 * 4)).sum(axis=1)
+        for i in range(len(pu)):
+            ties = sum(1 for j in range(len(ps)) if D2f[i, j] == r2 and
+                       (F(pu[i, 0]) - F(ps[j, 0])) ** 2 + (F(pu[i, 1]) - F(ps[j, 1])) ** 2 == F(eps) * F(eps))
+            if not (lo[i] + ties <= cnt[i] <= hi[i]) and not (lo[i] <= cnt[i] <= hi[i] and ties == 0):
+                ctx.case(cls="conn:pair-count-mismatch")
+                ctx.fail("radius-pair-count-differs-from-documented", case,
+                         "_pair_counts for u[%d] = %d, but %d points have d^2 < r2 and %d exact ties d^2 == r2 (documented: d^2 <= r2)" % (i, int(cnt[i]), int(lo[i]), ties))
+                return
     try:
         res = be.run(req).results
     except Exception as e:  # a well-formed request must be handled
